@@ -504,6 +504,31 @@ mut('C03', 'zincparser', "    Regex(u'[%_/$\\u0080-\\U0010ffff]')", "    Regex(u
 mut('C03', 'zincparser', "VERSION_RE = re.compile(r'^ver:\"(([^\"\\\\]|\\\\[\\\\\"bfnrt$])+)\"')", "VERSION_RE = re.compile(r'^ver:\"([0-9]\\.[0-9])\"')", name='version sniffer only accepts d.d')
 mut('C03', 'zincparser', "hs_scalar_3_0 <<= Or([hs_ref, hs_xstr, hs_str, hs_uri, hs_dateTime,\n                      hs_date, hs_time, hs_coord, hs_number, hs_na, hs_null,", "hs_scalar_3_0 <<= Or([hs_ref, hs_xstr, hs_str, hs_uri, hs_dateTime,\n                      hs_date, hs_time, hs_coord, hs_null, hs_number, hs_na,", 'OK', name='reordering under longest-match Or (harmless)')
 
+# ---- C09 -----------------------------------------------------------------------------
+mut('C09', 'zincparser', """    except:
+        LOG.debug('Failing grid: %r', grid_data, exc_info=1)
+        (_, exc, _) = sys.exc_info()
+        raise ZincParseException(
+            'Failed to parse: %s' % exc, grid_data, 0, 0)
+""", "", name='catch-all handler removed')
+mut('C09', 'zincparser', """        raise ZincParseException(
+            'Failed to parse: %s' % exc, grid_data, 0, 0)""", """        raise ValueError('Failed to parse: %s' % exc)""", name='catch-all raises plain ValueError')
+mut('C09', 'zincparser', "def parse_grid(grid_data, parseAll=True):", "def parse_grid(grid_data, parseAll=False):")
+mut('C09', 'zincparser', "def reformat_exception(ex_msg, line_num=None):\n", "def reformat_exception(ex_msg, line_num=None):\n    print(ex_msg)\n", name='revert fix: debug print in handler path')
+mut('C09', 'zincparser', "def reformat_exception(ex_msg, line_num=None):\n", "def reformat_exception(ex_msg, line_num=None):\n    open('/tmp/zinc-errors.log', 'a').write(str(ex_msg))\n", name='handler path writes a log file')
+mut('C09', 'zincparser', "    return [datetime.datetime.strptime(time_str, time_fmt).time()]", "    return [TIME_CACHE[time_str]]", 'OK', name='(unknown callee: not judged)')
+mut('C09', 'zincparser', "    Suppress(Regex(r'\\[ *\\]')), \\\n", "    Suppress(Regex(r'[ *]')), \\\n", name='revert fix: [ *] accepts a lone *')
+mut('C09', 'zincparser', "hs_id = Regex(r'[a-z][a-zA-Z0-9_]*').setName('id')", "hs_id = Regex(r'[a-zA-Z][a-zA-Z0-9_]*').setName('id')", name='tag names may start upper-case')
+mut('C09', 'zincparser', 'hs_strChar = Regex(r"([^\\x00-\\x1f\\\\\\"]|', 'hs_strChar = Regex(r"([^\\x00-\\x1f\\\\]|', name='raw quote allowed inside strings')
+mut('C09', 'zincparser', 'hs_strChar = Regex(r"([^\\x00-\\x1f\\\\\\"]|\\\\[bfnrt\\\\\\"$]|', 'hs_strChar = Regex(r"([^\\x00-\\x1f\\\\\\"]|\\\\.|', name='any escape accepted')
+mut('C09', 'zincparser', "class ZincParseException(ValueError):", "class ZincParseException(Exception):")
+mut('C09', 'zincparser', "            Suppress(Regex(r' *\\]')) \\\n", "            Suppress(Optional(Regex(r' *\\]'))) \\\n", name='closing bracket optional')
+mut('C09', 'zincparser', "        return hs_scalar[version].parseString(scalar_data, parseAll=True)[0]", "        return hs_scalar[version].parseString(scalar_data)[0]", name='scalar parse without parseAll')
+mut('C09', 'datatypes', "                self.data = bytearray.fromhex(data)", "                self.data = HEX_TABLE[data]", 'OK', name='(unknown callee: not judged)')
+mut('C09', 'zincparser', """        try:
+            # If we know the line and column, point it out in the message.""", """        if True:
+            # If we know the line and column, point it out in the message.""", 'OK', name='(syntax changes: skip)')
+
 
 def run(selected):
     base_cache = {}
